@@ -223,6 +223,8 @@ def _assigned_roots(stmt):
             d = dotted(t)
             if d:
                 out.add(d)
+                if d.endswith(".__dict__"):
+                    out.add(d[:-len(".__dict__")])        # replacing the attribute record invalidates every fact about the object
             else:
                 for n in ast.walk(t):
                     if isinstance(n, ast.Name):
@@ -856,6 +858,11 @@ def walk_path(path, params=(), init_env=None, kill_attr_on_call=None, prog=None,
             heap[d] = value
             for k in [k for k in heap if k.startswith(d + ".")]:
                 del heap[k]
+            if d.endswith(".__dict__"):
+                # the whole attribute record is replaced: nothing known about the object's attributes survives
+                base = d[:-len(".__dict__")]
+                for k in [k for k in heap if k.startswith(base + ".") and k != d]:
+                    del heap[k]
         else:
             scope.env[d] = value
             for k in [k for k in scope.env if k.startswith(d + ".")]:
